@@ -40,7 +40,7 @@ class Session:
         self.src.mkdir(parents=True, exist_ok=True)
         self.world = harness.World(store=store, concurrent=concurrent, flavour=flavour, backend_factory=backend_factory)
         self.store = self.world.store
-        harness.install_clock(reset=store is None)      # a new repository starts its own time line (ms since EPOCH stay small for TLC)
+        harness.install_clock()
         enc = graph != 'plain'
         st = harness.settings(encrypted=enc, min_length=min_length, max_length=max_length, cipher=cipher, hashing=hashing)
         cache_of = (lambda u: cache.get(u) if isinstance(cache, dict) else str(self.root / ('cache-of-' + u)) if cache == '__private__' else cache)
@@ -501,9 +501,12 @@ class Session:
                 snaps0.append(self.sids[loc])
         pws = {}
         pw = {u: pws.setdefault(self.world.users[u].password, len(pws) + 1) for u in self.users}
+        # timestamps in ms relative to the oldest one of this repository (order and ties preserved, values small enough for TLC's 32-bit integers)
+        stamped = [d['ts'] for d in self.defs if d.get('stamp')]
+        ts0 = min(stamped) if stamped else 0
         t = {'graph': self.graph, 'seed': self.seed, 'np': max(self.np, 1), 'fam': dict(self.fam), 'pw': pw,
              'init': {'chunks': chunks0, 'snaps': snaps0, 'dirty': list(self.dirty0)},
-             'snapdefs': [{'fam': d['fam'], 'readers': d['readers'], 'table': d['table'], 'ts': d['ts'], 'files': d['files']} for d in self.defs],
+             'snapdefs': [{'fam': d['fam'], 'readers': d['readers'], 'table': d['table'], 'ts': (d['ts'] - ts0) if d.get('stamp') else 0, 'files': d['files']} for d in self.defs],
              'events': out}
         if extra:
             t.update(extra)
